@@ -393,6 +393,16 @@ impl World {
         }
     }
 
+    /// replace the placeholders of hostile-name scenarios by the real (per-run) directories
+    pub fn subst(&self, name: &str, ent: usize) -> String {
+        if !name.contains('{') {
+            return name.to_string();
+        }
+        name.replace("{ROOTX}", self.root.join(format!("jail/e{}x", ent)).as_str())
+            .replace("{ROOT}", self.root.join(format!("jail/e{}", ent)).as_str())
+            .replace("{JAIL}", self.root.join("jail").as_str())
+    }
+
     pub fn budget_hit(&self) -> bool {
         self.inner.lock().unwrap().step_budget_hit
     }
@@ -718,6 +728,19 @@ impl World {
                         v.iter().filter(|x| x.0 == *kind).nth(*k as usize).map(|x| x.1.clone())
                     }),
                     What::Raw(b) => Some(Arc::new(b.clone())),
+                    What::Meta { seq, unack, closure, null, size, src_name, dst_name, reqs } => {
+                        let e = &self.sc.ents[src.min(self.sc.ents.len() - 1)];
+                        let h = crate::pdus::Hdr { idw: self.sc.idw, src: self.entity_value(src), seq: *seq, dst: self.entity_value(dst), unack: *unack, crc: e.crc, large: false };
+                        let rq = reqs
+                            .iter()
+                            .map(|r| FileStoreRequest {
+                                action_code: action_from(r.action),
+                                first_filename: Utf8PathBuf::from(self.subst(&r.first, dst)),
+                                second_filename: Utf8PathBuf::from(self.subst(&r.second, dst)),
+                            })
+                            .collect();
+                        Some(Arc::new(h.metadata(*size, &self.subst(src_name, src), &self.subst(dst_name, dst), *closure, *null, rq)))
+                    }
                 };
                 match bytes {
                     Some(b) => {
@@ -779,8 +802,8 @@ impl World {
         g.puts[put].predicted = predicted;
         g.puts[put].issued = true;
         let req = PutRequest {
-            source_filename: Utf8PathBuf::from(p.src_name.clone()),
-            destination_filename: Utf8PathBuf::from(p.dst_name.clone()),
+            source_filename: Utf8PathBuf::from(self.subst(&p.src_name, p.src)),
+            destination_filename: Utf8PathBuf::from(self.subst(&p.dst_name, p.dst)),
             destination_entity_id: self.entity_id(p.dst),
             transmission_mode: if p.unack {
                 TransmissionMode::Unacknowledged
@@ -792,8 +815,8 @@ impl World {
                 .iter()
                 .map(|r| FileStoreRequest {
                     action_code: action_from(r.action),
-                    first_filename: Utf8PathBuf::from(r.first.clone()),
-                    second_filename: Utf8PathBuf::from(r.second.clone()),
+                    first_filename: Utf8PathBuf::from(self.subst(&r.first, p.dst)),
+                    second_filename: Utf8PathBuf::from(self.subst(&r.second, p.dst)),
                 })
                 .collect(),
             message_to_user: p.msgs.iter().map(|m| MessageToUser { message_text: m.clone() }).collect(),
@@ -1120,7 +1143,7 @@ pub fn run(sc: &Scenario, root: &Utf8PathBuf, opts: &RunOpts) -> RunRecord {
             .puts
             .iter()
             .map(|p| {
-                if sc.ents[p.dst].real && !p.dst_name.is_empty() {
+                if sc.ents[p.dst].real && !p.dst_name.is_empty() && !p.dst_name.contains('{') {
                     // the harness's own notion of where an honest destination name lives
                     Some(root.join(format!("jail/e{}", p.dst)).join(&p.dst_name).into_std_path_buf())
                 } else {
